@@ -5,6 +5,7 @@
 (*   [op |-> "init", size]                    size of the file opened for reading      *)
 (*   [op |-> "seek", p, whence] / "prefetch" (maxc) / "read" (n; at, k) / "pause" /     *)
 (*   "readv" (chunks, maxc; res = Seq of <<at, k>>) / "write" (count) / "sync" /       *)
+(*   "writeB" (pipelined writes on a second file object of the same session) /         *)
 (*   "closeW" (rejected = writes the server refused on that file) / "closeR" /         *)
 (*   "put" / "get" (a whole transfer; fault = what the server did to one chunk:        *)
 (*       none | write_rejected | read_failed | read_eof | short_reads;                  *)
@@ -21,8 +22,9 @@ VARIABLES tid, l, bad, key,
           started,          \* _start_prefetch calls so far on the read file (prefetch / readv)
           wrote, syncd,     \* pipelined writes issued on the write file; a synchronous request came after one
           wraised,          \* a write()/close() on the write file has raised
-          eofseen, shortseen \* an earlier readv asked for a range at / past EOF; the server has returned a short read
-tvars == <<tid, l, bad, key, size, pos, started, wrote, syncd, wraised, eofseen, shortseen, vars>>
+          eofseen, shortseen, \* an earlier readv asked for a range at / past EOF; the server has returned a short read
+          wroteB            \* a second pipelined file object of the session has been written to
+tvars == <<tid, l, bad, key, size, pos, started, wrote, syncd, wraised, eofseen, shortseen, wroteB, vars>>
 T == Batch[tid]
 R == T[l]
 
@@ -40,7 +42,7 @@ Cause == IF R.op = "readv" /\ EofReq(R.chunks) THEN "eof_request"
          ELSE IF shortseen \/ R.short THEN "short_reads"
          ELSE "other"
 Flag(b, s) == IF b THEN "+" \o s ELSE ""
-WFlags == Flag(syncd, "sync_interleaved")
+WFlags == Flag(syncd, "sync_interleaved") \o Flag(wroteB, "second_file")
           \o Flag(wrote + (IF R.op = "write" THEN R.count ELSE 0) > 100, "over_100_writes")
 
 \* ---- clauses ----
@@ -72,17 +74,18 @@ Key ==
   CASE R.op \in {"readv", "read", "prefetch", "seek", "closeR"} -> R.op \o ":" \o Cause
     [] R.op \in {"write", "closeW", "sync"} -> R.op \o WFlags
     [] R.op \in {"put", "get"} -> R.op \o ":" \o R.fault \o Flag(R.op = "put" /\ R.confirm, "confirm") \o Flag(R.op = "get" /\ R.prefetch, "prefetch")
+                                  \o Flag(R.second, "second_file")
     [] OTHER           -> R.op
 
 LastRes == R.res[Len(R.res)]
 TInit == /\ tid \in 1..Len(Batch) /\ l = 1 /\ bad = {} /\ key = ""
          /\ size = 0 /\ pos = 0 /\ started = 0 /\ wrote = 0 /\ syncd = FALSE /\ wraised = FALSE
-         /\ eofseen = FALSE /\ shortseen = FALSE /\ Init
+         /\ eofseen = FALSE /\ shortseen = FALSE /\ wroteB = FALSE /\ Init
 TNext ==
   /\ l <= Len(T) /\ l' = l + 1 /\ tid' = tid
   /\ IF R.op = "init"
        THEN /\ size' = R.size /\ bad' = {} /\ key' = "init"
-            /\ UNCHANGED <<pos, started, wrote, syncd, wraised, eofseen, shortseen>>
+            /\ UNCHANGED <<pos, started, wrote, syncd, wraised, eofseen, shortseen, wroteB>>
        ELSE /\ bad' = Clauses /\ key' = Key /\ UNCHANGED size
             /\ pos' = CASE R.op = "seek" /\ R.out = "ok" ->
                                (CASE R.whence = 0 -> R.p [] R.whence = 1 -> pos + R.p [] OTHER -> size + R.p)
@@ -95,6 +98,7 @@ TNext ==
             /\ wraised' = (wraised \/ (R.op \in {"write", "closeW"} /\ R.out = "exc"))
             /\ eofseen' = (eofseen \/ (R.op = "readv" /\ EofReq(R.chunks)))
             /\ shortseen' = (shortseen \/ R.short)
+            /\ wroteB' = (wroteB \/ R.op = "writeB")
   /\ UNCHANGED vars
 TSpec == TInit /\ [][TNext]_tvars
 Report == /\ (bad # {} => PrintT(<<"VERDICT", tid, l - 1, key, bad>>))
